@@ -953,6 +953,10 @@ func genC18(r *simrt.Rand, tier string, idx uint64) *Plan {
 		for c := 0; c < 1+r.Intn(5); c++ {
 			p.Clients = append(p.Clients, ClientPlan{Ops: []Op{{Kind: "sleep", N: (1 + r.Intn(50)) * 1000}, {Kind: cForms[r.Intn(len(cForms))]}}})
 		}
+		// callers that arrive well after the pause has ended: routing is back to normal
+		for c := 0; c < 1+r.Intn(3); c++ {
+			p.Clients = append(p.Clients, ClientPlan{Ops: []Op{{Kind: "sleep", N: (fb + 1200 + r.Intn(800)) * 1000}, {Kind: cForms[r.Intn(len(cForms))]}}})
+		}
 	}
 	return p
 }
@@ -1098,6 +1102,15 @@ func checkC18(w *World, run *simrt.Run) {
 		fbEnd := time.Duration(p.Params["warmup_ms"])*time.Millisecond + fb
 		for _, r := range cs.results {
 			if !r.Returned {
+				continue
+			}
+			if r.StartT > fbEnd+bound {
+				// the pause is over (and every target is live): routed at once
+				if r.Err != "" || r.EndT != r.StartT {
+					w.Violate("C18.fallback", "routing-not-resumed-after-fallback:"+r.Form, fmt.Sprintf("caller %d %s started %v, the Fallback pause ended at %v: returned %q after %v", r.Caller, r.Form, r.StartT, fbEnd, r.Err, r.EndT-r.StartT))
+				} else {
+					w.Probe("routed-at-once-after-fallback")
+				}
 				continue
 			}
 			if r.StartT < fbEnd && r.StartT+dt > fbEnd+bound {
